@@ -124,6 +124,14 @@ class Node:
             self.bp.fetch_and_process_blocks(self.caught_up_event, self.shutdown_event))
         return self.task
 
+    async def opened(self):
+        '''Wait until the processor has opened the database and read its state.'''
+        while self.bp.state is None:
+            if self.task.done():
+                exc = None if self.task.cancelled() else self.task.exception()
+                raise NodeDied(repr(exc), exc)
+            await asyncio.sleep(0.01)
+
     def task_failed(self):
         return self.task is not None and self.task.done() and not self.task.cancelled() \
             and self.task.exception() is not None
@@ -168,6 +176,8 @@ class Node:
                 await self.task
             except asyncio.CancelledError:
                 pass
+            except Exception:
+                pass        # a dead processing task is reported by settle(), not here
         loop = asyncio.get_event_loop()
         # prefetch tasks were cancelled by stop_prefetching; let them finish
         for t in list(OnDiskBlock.tasks.values()):
